@@ -84,7 +84,7 @@ Definition apply_step (c : cstate) (s : dstep) : cstate :=
   | SReleaseDs ds n =>
     with_store c (set_ds (cs_store c) ds (with_next (get_ds (cs_store c) ds) n))
   | SCommitIds asg =>
-    {| cs_store := cs_store c; cs_ids := rev asg ++ cs_ids c; cs_idp := cs_idp c; cs_items := cs_items c; cs_next := cs_next c |}
+    {| cs_store := cs_store c; cs_ids := asg ++ cs_ids c; cs_idp := cs_idp c; cs_items := cs_items c; cs_next := cs_next c |}
   | SCommitData clk sets cnt =>
     let st := fold_left (fun s (p : Z * dstate) => set_ds s (fst p) (with_data (get_ds s (fst p)) (snd p))) sets (cs_store c) in
     {| cs_store := {| s_ds := s_ds st; s_clock := clk |}; cs_ids := cs_ids c; cs_idp := cs_idp c;
